@@ -1765,7 +1765,7 @@ class _Date(Vector):
 
 	def __add__(self, other):
 		""" adding integers is adding days """
-		if isinstance(other, Vector) and other.schema().kind == int:
+		if isinstance(other, Vector) and other.schema() is not None and other.schema().kind == int:
 			if len(self) != len(other):
 				raise ValueError(f"Length mismatch: {len(self)} != {len(other)}")
 			return Vector(tuple(
